@@ -300,3 +300,33 @@ func (w *WaitGroup) Wait() {
 	}
 	Block("WaitGroup.Wait", w.ch)
 }
+
+// Cond replaces sync.Cond: Wait is a native blocking operation the scheduler can see.
+type Cond struct {
+	L       sync.Locker
+	waiters []chan struct{}
+}
+
+func NewCond(l sync.Locker) *Cond { return &Cond{L: l} }
+
+func (c *Cond) Wait() {
+	ch := make(chan struct{})
+	c.waiters = append(c.waiters, ch)
+	c.L.Unlock()
+	Block("Cond.Wait", ch)
+	c.L.Lock()
+}
+
+func (c *Cond) Signal() {
+	if len(c.waiters) > 0 {
+		close(c.waiters[0])
+		c.waiters = c.waiters[1:]
+	}
+}
+
+func (c *Cond) Broadcast() {
+	for _, ch := range c.waiters {
+		close(ch)
+	}
+	c.waiters = nil
+}
